@@ -45,6 +45,8 @@ func runC18(c *Check, tier string) {
 	if li := findLocker(c, "R18g"); li != nil {
 		ruleR10b(c, li, "R18g", false)
 	}
+	// a leaked semaphore slot turns into a wait that no signal ends
+	ruleSemaphorePairing(c, "R18h")
 }
 
 func ruleR18a(c *Check) {
